@@ -264,4 +264,204 @@ def units():
     us.append(FunctionUnit(EmitContract("emit_else_begin", {}, [(0, "else:")], prefix=[(0, "if X:"), (1, "pass")], level0=1, end_level=1)))
     us.append(FunctionUnit(EmitContract("emit_for_begin", {}, [(0, "for N_loop_var_name in range(E_lbound, E_ubound):")], end_level=1)))
     us.append(FunctionUnit(EmitContract("emit_for_end", {}, [], prefix=[(0, "for i in X:"), (1, "pass")], level0=1, end_level=0)))
+    return us + expr_units()
+
+
+# ---- the expression printer's own methods (dagrt/codegen/expressions.py: PythonExpressionMapper) ----------------------------
+EXPR_REL = "dagrt/codegen/expressions.py"
+
+
+class VKwargs(V):
+    ty = None
+
+    def __init__(self, items):
+        self.items = items      # [(name, value tag)]
+
+
+class VPyDict(V):
+    ty = None
+
+    def __init__(self):
+        self.d = {}
+
+    def setitem(self, it, idx, v, node):
+        k = it.ctx.deref(idx)
+        key = k.t.as_long() if isinstance(k, VInt) and z3.is_int_value(z3.simplify(k.t)) else getattr(k, "py", "?")
+        self.d[key] = getattr(it.ctx.deref(v), "py", "?")
+        return NONE
+
+
+def expr_tree(text):
+    try:
+        return pyast.dump(pyast.parse(text, mode="eval"))
+    except SyntaxError as ex:
+        return "SyntaxError: %s in %r" % (ex, text)
+
+
+class ExprEmit(FunctionContract):
+    """one method of PythonExpressionMapper: the text it returns parses to the reference expression; sub-expressions are
+    printed through self.rec (placeholder E_<child>) with the precedence the reference demands"""
+    prop = "C01"
+    relpath = EXPR_REL
+    concrete_fstrings = True
+    exc_hierarchy = {"FunctionNotFound": ["Exception"]}
+
+    def __init__(self, method, config, expected):
+        self.method = method
+        self.qualname = "PythonExpressionMapper." + method
+        self.config = config
+        self.expected = expected         # reference text, or ("delegates", what)
+        self.variant_name = ",".join("%s=%s" % kv for kv in sorted(config.items())) if config else ""
+
+    def params(self, ctx):
+        c = self.config
+        self.recs = []
+        self.delegated = None
+        self.codegen_got = None
+        npos, nkw = c.get("args", 0), c.get("kwargs", 0)
+        ctx.env["self"] = VObj(TObj("Mapper", {}), {
+            "_name_manager": VNameMgr(), "_function_registry": VRegistry2(self, bool(c.get("registered", False))),
+            "rec": VFunc("rec", self.m_rec), "map_generic_call": VFunc("map_generic_call", self.m_delegate),
+            "parenthesize_if_needed": VFunc("parenthesize_if_needed", self.m_paren)})
+        ctx.env["expr"] = VExprNode(c.get("name", "x"))
+        ctx.env["enclosing_prec"] = VPy("enclosing_prec")
+        ctx.env["symbol"] = VObj(TObj("sym", {}), {"name": VPy("symbolname")})
+        ctx.env["args"] = VTuple([VPy("a%d" % i) for i in range(npos)])
+        ctx.env["kwargs"] = VKwargs([("kw%d" % i, VPy("k%d" % i)) for i in range(nkw)])
+
+    def m_rec(self, ctx, it, args, kw):
+        a = [ctx.deref(x) for x in args]
+        self.recs.append((getattr(a[0], "py", "?"), tuple(getattr(x, "py", "?") for x in a[1:])))
+        return VPy("E_%s" % str(getattr(a[0], "py", "?")).replace(".", "_"))
+
+    def m_delegate(self, ctx, it, args, kw):
+        a = [ctx.deref(x) for x in args]
+        self.delegated = tuple(getattr(x, "py", "{}" if isinstance(x, VPyDict) and not x.d else "?") for x in a)
+        return VPy("<text of map_generic_call>")
+
+    def m_paren(self, ctx, it, args, kw):
+        a = [ctx.deref(x) for x in args]
+        self.paren = tuple(getattr(x, "py", "?") for x in a[1:])
+        return a[0]
+
+    def getattr_hook(self, ctx, it, obj, name):
+        o = ctx.deref(obj)
+        if isinstance(o, VExprNode):
+            if name == "name":
+                return VPy(o.name)
+            return VPy("expr.%s" % name)
+        if isinstance(o, VKwargs) and name == "items":
+            return VFunc("items", lambda ctx, it, a, k: VTuple([VTuple([VPy(n), v]) for n, v in o.items]))
+        if isinstance(o, VNameMgr) and name == "name_function":
+            return VFunc(name, lambda ctx, it, a, k: VPy("F_FUNC" if str(getattr(ctx.deref(a[0]), "py", "?")).startswith("<func>")
+                                                        else "F_%s" % getattr(ctx.deref(a[0]), "py", "?")))
+        if isinstance(o, VRegistry2) and name == "get_codegen":
+            return VFunc(name, o.get_codegen)
+        if isinstance(o, VPy) and isinstance(o.py, str):
+            if name == "startswith":
+                return VFunc(name, lambda ctx, it, a, k: VBool(o.py.startswith(ctx.deref(a[0]).py)))
+            return EmitContract.getattr_hook(self, ctx, it, obj, name)
+        return None
+
+    def dict_literal(self, ctx, it, e):
+        if e.keys:
+            raise Unsupported("dict literal")
+        return VPyDict()
+
+    def m_enumerate(self, ctx, it, args, kw):
+        v = ctx.deref(args[0])
+        if not isinstance(v, VTuple):
+            raise Unsupported("enumerate(%r)" % (v,))
+        return VTuple([VTuple([VInt(i), x]) for i, x in enumerate(v.items)])
+
+    schema = EmitContract.schema
+
+    def binop_hook(self, ctx, it, op_, a, b):
+        if op_ is pyast.Add and isinstance(a, VTuple) and isinstance(b, VTuple):
+            return VTuple(list(a.items) + list(b.items))          # list + list of concrete texts
+        return EmitContract.binop_hook(self, ctx, it, op_, a, b)
+
+    @property
+    def comprehensions(self):
+        from .c16 import _comprehensions_of
+        return {pyast.unparse(c): self.schema for c in _comprehensions_of(EXPR_REL, self.qualname)}
+
+    def list_binop(self, a, b):
+        return None
+
+    names = property(lambda self: {"enumerate": VFunc("enumerate", self.m_enumerate), "PREC_NONE": VPy("PREC_NONE"),
+                                   "PREC_LOGICAL_OR": VPy("PREC_LOGICAL_OR"), "PREC_IFTHENELSE": VPy("PREC_IFTHENELSE"),
+                                   "FunctionNotFound": VClass("FunctionNotFound")})
+
+    def ensures(self, st):
+        r = st.result
+        text = getattr(r, "py", None)
+        exp = self.expected
+        if isinstance(exp, tuple) and exp[0] == "delegates":
+            return [("delegates-to-map_generic_call-with-function-parameters-and-keyword-parameters",
+                     B(self.delegated == exp[1] and text == "<text of map_generic_call>"))]
+        if isinstance(exp, tuple) and exp[0] == "codegen":
+            return [("a-registered-function's-own-generator-gets-every-argument-text-by-position-and-by-name",
+                     B(text == "<text of the registered generator>" and self.codegen_got == exp[1]))]
+        out = [("returned-text-parses-to-the-reference-expression",
+                B(isinstance(text, str) and expr_tree(text) == expr_tree(exp) and not expr_tree(text).startswith("SyntaxError")))]
+        if self.method == "map_if":
+            out.append(("branches-and-condition-are-printed-so-that-a-nested-conditional-gets-parentheses",
+                        B(sorted(self.recs) == sorted([("expr.then", ("PREC_LOGICAL_OR",)), ("expr.condition", ("PREC_LOGICAL_OR",)),
+                                                       ("expr.else_", ("PREC_LOGICAL_OR",))])
+                          and getattr(self, "paren", None) == ("enclosing_prec", "PREC_IFTHENELSE"))))
+        return out
+
+
+class VExprNode(V):
+    ty = None
+
+    def __init__(self, name):
+        self.name = name
+
+
+class VNameMgr(V):
+    ty = None
+
+    def getitem(self, it, idx, node):
+        return VPy("N_%s" % getattr(it.ctx.deref(idx), "py", "?"))
+
+
+class VRegistry2(V):
+    ty = None
+
+    def __init__(self, contract, registered):
+        self.c, self.registered = contract, registered
+
+    def get_codegen(self, ctx, it, args, kw):
+        a = [getattr(ctx.deref(x), "py", "?") for x in args]
+        if a != ["symbolname", "python"]:
+            raise Unsupported("get_codegen(%r)" % (a,))
+        if not self.registered:
+            ctx.raise_("FunctionNotFound")
+
+        def gen(ctx, it, a2, k2):
+            d = ctx.deref(a2[1])
+            self.c.codegen_got = dict(d.d) if isinstance(d, VPyDict) else None
+            return VPy("<text of the registered generator>")
+        return VFunc("codegen", gen)
+
+
+def _list_add(self, it, op_, other, node):
+    return None
+
+
+def expr_units():
+    us = [FunctionUnit(ExprEmit("map_variable", {"name": "y"}, "N_y")),
+          FunctionUnit(ExprEmit("map_variable", {"name": "<func>f"}, "F__func_f".replace("F__func_f", "F_FUNC"))),
+          FunctionUnit(ExprEmit("map_call", {}, ("delegates", ("expr.function", "expr.parameters", "{}")))),
+          FunctionUnit(ExprEmit("map_call_with_kwargs", {}, ("delegates", ("expr.function", "expr.parameters", "expr.kw_parameters")))),
+          FunctionUnit(ExprEmit("map_if", {}, "E_expr.then if E_expr.condition else E_expr.else_".replace("expr.", "expr_")))]
+    for n, m in itertools.product((0, 1, 2), (0, 1, 2)):
+        args = ["E_a%d" % i for i in range(n)] + ["kw%d=E_k%d" % (i, i) for i in range(m)]
+        us.append(FunctionUnit(ExprEmit("map_generic_call", {"args": n, "kwargs": m, "registered": False},
+                                        "F_symbolname(%s)" % ", ".join(args))))
+        want = {i: "E_a%d" % i for i in range(n)}
+        want.update({"kw%d" % i: "E_k%d" % i for i in range(m)})
+        us.append(FunctionUnit(ExprEmit("map_generic_call", {"args": n, "kwargs": m, "registered": True}, ("codegen", want))))
     return us
